@@ -392,9 +392,21 @@ static void bd_zero_model (bd_t *b) { memset (b->M->w, 0, sizeof (uint64_t) * (s
 static const struct { int R, C; } BSH[] = {{3, 200}, {70, 70}, {300, 65}, {260, 130}, {2, 1000}, {1000, 2}, {65, 1}, {9, 257}, {40, 96}, {33, 33}, {5, 4097}, {600, 40}};
 #define NBSH ((int) (sizeof BSH / sizeof BSH[0]))
 #define NBPAT 6
-static void big_ops_script (int si, int pat)
+static void big_ops_script_rc (int R, int C, int pat);
+static void big_ops_script (int si, int pat) { big_ops_script_rc (BSH[si].R, BSH[si].C, pat); }
+/* contiguous sweep of the column count: EVERY C in 1..300 (thorough ..700) with a row count derived from C, pattern rotating */
+static int SWC_HI = 300;
+static void sweep_ops_item (long it, void *arg)
 {
-	int R = BSH[si].R, C = BSH[si].C, i, j, v;
+	int C = 1 + (int) it, R = 2 + (C * 7) % 23;
+	(void) arg;
+	vf_slot_set_prop ("C18");
+	big_ops_script_rc (R, C, C % NBPAT);
+	if (C % 5 == 0) big_ops_script_rc (C, 2 + (C * 3) % 19, (C + 1) % NBPAT);	/* and as a row count */
+}
+static void big_ops_script_rc (int R, int C, int pat)
+{
+	int i, j, v;
 	bd_t A, B;
 	snprintf (g_desc, sizeof g_desc, "bigops shape=%dx%d pattern=%d", R, C, pat);
 	memcpy (vf_slot (), g_desc, sizeof g_desc);
@@ -574,7 +586,7 @@ static void replay_one (const char *cs)
 	} else if (!strncmp (cs, "bigops ", 7)) {
 		int R, C, pat, si;
 		if (sscanf (cs, "bigops shape=%dx%d pattern=%d", &R, &C, &pat) != 3) return;
-		for (si = 0; si < NBSH; si++) if (BSH[si].R == R && BSH[si].C == C) big_ops_script (si, pat);
+		(void) si; big_ops_script_rc (R, C, pat);
 	} else if (!strncmp (cs, "bigsolver ", 10)) {
 		int fam, q, extra, len, nr; bitmat *M;
 		if (sscanf (cs, "bigsolver fam=%d q=%d extra=%d len=%d nullrhs=%d", &fam, &q, &extra, &len, &nr) != 5) return;
@@ -615,9 +627,10 @@ int main (int argc, char **argv)
 		vf_sample ("ops dims=2x33,2x33: alphabet = flip/set at cells (row 0/last) x (col 0,30,31,32,last), clear, copy, copyrows (all index vectors), copycols (5 column maps), xor_rows (all ordered row pairs); after every step all cells, weights, emptiness, density compared");
 	} else if (!strcmp (mode, "big")) {
 		vf_pool_run ((long) NBSH * NBPAT + (long) NBFAM * NBQ * 2, big_item, NULL, 0);
-		if (vf_tier_thorough ()) SWQ_HI = 400;
+		if (vf_tier_thorough ()) { SWQ_HI = 400; SWC_HI = 700; }
+		vf_pool_run (SWC_HI, sweep_ops_item, NULL, 0);
 		vf_pool_run (SWQ_HI - SWQ_LO + 1, sweep_solver_item, NULL, 0);
-		vf_outcome ("big_ops_scripts", NBSH * NBPAT); vf_outcome ("big_solver_systems", NBFAM * NBQ * 2); vf_outcome ("solver_sweep_unknowns", SWQ_HI - SWQ_LO + 1);
+		vf_outcome ("big_ops_scripts", NBSH * NBPAT); vf_outcome ("big_solver_systems", NBFAM * NBQ * 2); vf_outcome ("solver_sweep_unknowns", SWQ_HI - SWQ_LO + 1); vf_outcome ("ops_sweep_column_counts", SWC_HI);
 		vf_sample ("bigsolver fam=1 (lower-all-ones) q=65 extra=3 len=129: status OK, 65 variables equal the known solution");
 	} else if (!strcmp (mode, "popcnt")) {
 		vf_pool_run (256, pop_item, NULL, 0);
